@@ -52,6 +52,7 @@ var notCovered = map[string]bool{
 
 func family(scn string) string {
 	for _, f := range []string{"ecdsa-signing", "ecdsa-keygen", "ecdsa-resharing", "eddsa-keygen", "eddsa-signing", "eddsa-resharing"} {
+		// (scenario names carry a suffix such as -3 / -3new)
 		if strings.HasPrefix(scn, f) {
 			return f
 		}
@@ -96,6 +97,8 @@ func Run(r *core.Run) {
 	if !full {
 		// three parties, the deviator is NOT the last one: round-1 broadcast only (blame must not drift to a later party)
 		plans = append(plans, plan{"ecdsa-keygen-3:KGRound1Message", 0, false, false})
+		// three new members, the deviating new member is not the last one
+		plans = append(plans, plan{"ecdsa-resharing-3new:DGRound2Message1", 2, false, false})
 	}
 	for _, p := range plans {
 		only := ""
